@@ -113,6 +113,9 @@ def _gen_pix(rng, tier: str, chunk_hint=None) -> dict:
         # ids as integers, or as floats (pixels read back from an SQW file are float32 throughout)
         "idtype": rng.choice(["int64", "int64", "int32", "float32", "float64"]),
         "dist": rng.choice(["uniform", "uniform", "ints", "wide"]),
+        # dtype of the four coordinate rows (default: that of the signal) and integer ids beyond 2**53
+        "cdtype": rng.choice([None, None, None, "int64", "int32"]),
+        "id_edge": rng.random() < 0.15,
         "units": {
             "u1": rng.choice(Q_UNITS), "u2": rng.choice(Q_UNITS), "u3": rng.choice(Q_UNITS),
             "u4": rng.choice(E_UNITS), "signal": rng.choice(C_UNITS),
@@ -389,14 +392,33 @@ def make_pixels(sc, p: dict):
         return a.astype(vd)
 
     u = p["units"]
+    cdt = np.dtype(p.get("cdtype") or p["vdtype"])
+
+    def cvals(lo, hi):
+        # coordinates may be integers (bin indices, integer energies) in a unit that needs conversion
+        return np.round(vals(lo, hi).astype(float) * (10 if cdt.kind == "i" else 1)).astype(cdt) if cdt.kind == "i" \
+            else vals(lo, hi).astype(cdt)
+
+    def ids(hi):
+        a = g.integers(0, hi, n)
+        if p.get("id_edge") and idt == np.dtype("int64") and n:
+            # integers that a detour through float64 rounds differently than a direct cast to
+            # float32: 2**k + 2**(k-24) + 1 (and near-midpoint neighbours), both signs
+            k = g.integers(53, 62, n)
+            edge = (1 << k.astype(object)) + (1 << (k.astype(object) - 24)) + 1
+            edge = np.array([int(e) * (1 if s_ else -1) for e, s_ in zip(edge, g.integers(0, 2, n))], dtype=np.int64)
+            pick = g.random(n) < 0.5
+            a = np.where(pick, edge, a)
+        return a.astype(idt)
+
     coords = {
-        "u1": sc.array(dims=["obs"], values=vals(-5, 5), unit=u["u1"]),
-        "u2": sc.array(dims=["obs"], values=vals(-5, 5), unit=u["u2"]),
-        "u3": sc.array(dims=["obs"], values=vals(-5, 5), unit=u["u3"]),
-        "u4": sc.array(dims=["obs"], values=vals(-100, 100), unit=u["u4"]),
-        "irun": sc.array(dims=["obs"], values=g.integers(0, 20, n).astype(idt), unit=None),
-        "idet": sc.array(dims=["obs"], values=g.integers(0, 100000, n).astype(idt), unit=None),
-        "ien": sc.array(dims=["obs"], values=g.integers(0, 500, n).astype(idt), unit=None),
+        "u1": sc.array(dims=["obs"], values=cvals(-5, 5), unit=u["u1"]),
+        "u2": sc.array(dims=["obs"], values=cvals(-5, 5), unit=u["u2"]),
+        "u3": sc.array(dims=["obs"], values=cvals(-5, 5), unit=u["u3"]),
+        "u4": sc.array(dims=["obs"], values=cvals(-100, 100), unit=u["u4"]),
+        "irun": sc.array(dims=["obs"], values=ids(20), unit=None),
+        "idet": sc.array(dims=["obs"], values=ids(100000), unit=None),
+        "ien": sc.array(dims=["obs"], values=ids(500), unit=None),
     }
     if p.get("extra_coord"):
         coords["extra"] = sc.array(dims=["obs"], values=g.uniform(0, 1, n), unit="s")
@@ -407,6 +429,18 @@ def make_pixels(sc, p: dict):
         coords = {k: _embed(sc, v, how) for k, v in coords.items()}
         data = _embed(sc, data, how)
     return sc.DataArray(data, coords=coords)
+
+
+def _to_row_unit(sc, r, unit):
+    """What 'converted to the declared unit' means for the reference: a value in another unit is
+    converted in floating point (an integer 15 1/nm is 1.5 1/angstrom, not 1 or 2); a value
+    already in the row's unit (or unit-less ids) is taken as it is, so that the single rounding
+    to float32 happens from the supplied number itself."""
+    if unit is None:
+        return r
+    if r.dtype in ("int64", "int32") and r.unit != sc.Unit(unit):
+        r = r.to(dtype="float64")
+    return sc.to_unit(r, unit)
 
 
 def _embed(sc, var, how):
@@ -1332,7 +1366,7 @@ class SqwEngine(Engine):
                     r = sc.variances(da.data)
                 else:
                     r = da.coords[name]
-                rows.append(sc.to_unit(r, unit) if unit is not None else r)
+                rows.append(_to_row_unit(sc, r, unit))
             with np.errstate(all="ignore"):
                 want = np.stack([r.values.astype(np.float32) for r in rows], axis=1) if p["n"] else \
                     np.zeros((0, 9), np.float32)
@@ -1356,8 +1390,8 @@ class SqwEngine(Engine):
                     expect("pix_metadata.npix", lambda: R.sval(s["npix"]), float(p["n"]))
                     if p["n"] > 0:
                         rng_want = np.array(
-                            [[float((sc.to_unit(r0.min(), u) if u else r0.min()).value),
-                              float((sc.to_unit(r0.max(), u) if u else r0.max()).value)]
+                            [[float(_to_row_unit(sc, r0.min(), u).value),
+                              float(_to_row_unit(sc, r0.max(), u).value)]
                              for r0, u in zip(
                                  [sc.values(da.data) if nm == "signal" else sc.variances(da.data)
                                   if nm == "error" else da.coords[nm] for nm in PIX_ROWS],
